@@ -332,6 +332,16 @@ func (w *Writer) Close() error {
 		return errors.New("Catalog.Metadata changed after NewWriter")
 	}
 
+	// Readers refuse an encrypted file which has no ID, and for the
+	// encryption methods of PDF versions before 2.0 the key was derived from
+	// ID[0] during NewWriter.  Replacing or clearing ID after NewWriter
+	// would give a file which cannot be opened.
+	if enc := w.w.enc; enc != nil {
+		if len(w.meta.ID) == 0 || enc.sec.R < 5 && !bytes.Equal(w.meta.ID[0], enc.sec.ID) {
+			return errors.New("ID changed after NewWriter")
+		}
+	}
+
 	catRef, err := w.rm.Store(w.meta.Catalog)
 	if err != nil {
 		return fmt.Errorf("failed to write document catalog: %w", err)
